@@ -10,7 +10,7 @@ THEOREMS = [
     ('EAO.Properties.C04', 'EAO.C04.value_accounting_split', 'the same for split problems: interval by interval, summed'),
     ('EAO.Properties.C03', 'EAO.C03.blockSum_value', 'value of the block-diagonal sum of interval problems = sum of interval values'),
 ]
-COMPONENTS = ['hypotheses of the assembly theorems (well-formedness of asset problems) evaluated on every captured real asset problem', 'assemble (cost, mapping) on captured real asset problems', 'readout.dcf vs Asset.dcf / io.extract_output["DCF"]']
+COMPONENTS = ['hypotheses of the assembly theorems (well-formedness of asset problems) evaluated on every captured real asset problem', 'assemble (cost, mapping) on captured real asset problems', 'readout.dcf vs Asset.dcf / io.extract_output["DCF"] (MIP / LP optimum and the relaxed solution of problems with booleans)']
 RULE = ('random portfolios incl. periodic, coarse-frequency, scaled, structured assets and order books; mono and split; '
         'every split solution is re-optimised as a split problem with whole intervals pinned to it through fix_time_window (a prefix = the past, a subset, or all; '
         'window as mask, index array or date; prices of the other steps changed) and the accounting identity checked on that result too; '
@@ -22,13 +22,28 @@ RULE = ('random portfolios incl. periodic, coarse-frequency, scaled, structured 
         '(three in four of them attractive, i.e. executed; else the generic generator\'s orders), (b) scaled assets paying fixed costs for their size (profitable base or min_scale > 0) with a window of their own '
         '(start after the first step, end before the last, off the grid points, ...) over a base with or without window, directly in the portfolio or wrapped '
         '(at the external or an internal node) in a structured asset that has a window itself; '
-        'non-trivial = solved scenario with >= 2 assets having non-zero cash flow; distinct by scenario hash')
+        'ways a result is produced and read out (comp/c04read.py): every problem with boolean variables (mono and split) is also optimised relaxed '
+        '(optimize(make_soft_problem=True)); (c) one more case per 6: portfolios in which yes/no decisions carry costs (plants / CHPs with a minimum load and start, running, '
+        'minimum-load costs; order books with fully executed orders priced around the market) next to markets of small capacity, so that the relaxed booleans are fractional; '
+        '(d) one case per 5: results of two-stage stochastic programmes (stoch_lin_prog.make_slp over the generators of comp/slp.py: all families, straddling coarse assets, '
+        '0..4 samples, LP and MIP); (e) in every third generic case, every second case of (c) and every case of (d) each result (mono, robust, split, relaxed, SLP) is read out '
+        '2..4 more times in a seed-drawn sequence of io.extract_output without / with prices, Asset.dcf of every asset called directly, Storage.fill_level, and the '
+        'statement is evaluated on every table against the solution as optimize returned it; '
+        'non-trivial = solved scenario with >= 2 assets having non-zero cash flow (relaxed: a fractional boolean with non-zero cost; SLP: non-zero cash flow on sampled future variables); distinct by scenario hash')
 ASSUMPTIONS = ['oracle tolerance 1e-6 * max(1,|value|, sum|DCF| over the filled cells)',
                'the sum of the DCF table is read as out["DCF"].sum().sum() (pandas skips empty cells); an empty / non-finite cell counts as a '
-               'violation by itself only inside the asset\'s own start/end']
+               'violation by itself only inside the asset\'s own start/end',
+               'the optimal values / the reported value the statement speaks about are those `optimize` returned: a copy of x, value and cost vector is taken when '
+               'optimize returns, before anything is read out, and every table (first or later) is compared with that copy',
+               'SLP results: an asset\'s own variables are its block of the original problem plus the copies of those of its variables whose first mapping row '
+               '(original problem) lies at or after start_future, at the positions make_slp documents (n + s * n_f + rank)']
 EXPLANATION = ('theorems about the model of Asset.dcf and the assembly; correspondence on captured problems; oracle: value vs DCF table vs -c_a.x_a with asset blocks taken from the sizes '
                'of the captured asset problems (independent of the mapping), on the result of every way the problem is built and solved: one go, robust, split, split re-optimised '
-               'with pinned intervals (fix_time_window), reordered; also for problems and intervals without any free variable. The oracle (comp/c04gen.orc_value_accounting) '
+               'with pinned intervals (fix_time_window), reordered, relaxed (make_soft_problem; the model\'s DCF read-out of the relaxed solution is tied to the real table as well), '
+               'two-stage SLP; also for problems and intervals without any free variable; and of every way it is read out: the same (portfolio, problem, result) objects '
+               'read out repeatedly (output tables without / with prices, per-asset Asset.dcf after the tables, fill levels in between), each table compared with the copy of the '
+               'solution taken when optimize returned (value = sum of the table = -c.x, per asset and in total; the value the result object carries is still the returned one). '
+               'The oracle (comp/c04gen.orc_value_accounting) '
                'sums the table as a user does (empty cells skipped), so a cash flow that is blanked out of the table shows as value != sum and as column total != -c_a.x_a; '
                'empty cells inside an asset\'s own window are reported as such')
 
@@ -55,6 +70,9 @@ def scenarios(seed, tier):
     for i in range(n // 10):
         r1 = random.Random(rnd.getrandbits(48))
         yield 'slp%d' % i, {'_stream': 'slp', 'case': S.gen_straddle_case(r1) if i % 2 else S.gen_case(r1), 'reads_seed': rnd4.getrandbits(30)}
+    for i in range(n // 10):
+        # further SLP results from the general generator (all families, start_future in all positions and forms, MIP allowed)
+        yield 'slpr%d' % i, {'_stream': 'slp', 'case': S.gen_case(random.Random(rnd4.getrandbits(48))), 'reads_seed': rnd4.getrandbits(30)}
     # problems (and single intervals of split problems) in which every variable is pinned by its bounds and carries cash flows
     from ..comp import fixedpf as F
     for i in range(n // 8):
